@@ -371,9 +371,16 @@ func (p *PeerPool) getPeerAddr(nodeID string) string {
 	p.mu.RLock()
 	defer p.mu.RUnlock()
 
+	// Simple matching - in production you'd have better mapping. An exact
+	// match wins: with peers "x" and "x:8081" both configured, requests for
+	// "x" must not go to whichever of the two happens to be listed first.
 	for _, peer := range p.peers {
-		// Simple matching - in production you'd have better mapping
-		if peer == nodeID || peer == nodeID+":8081" {
+		if peer == nodeID {
+			return peer
+		}
+	}
+	for _, peer := range p.peers {
+		if peer == nodeID+":8081" {
 			return peer
 		}
 	}
